@@ -506,6 +506,15 @@ impl TransformerContext {
         self.prev_element = Some(el.clone());
     }
 
+    pub fn get_prev_element(&self) -> Option<&SvgElement> {
+        self.prev_element.as_ref()
+    }
+
+    /// Replace the element `^` refers to (`None`: there is none, or it is not known yet).
+    pub fn replace_prev_element(&mut self, el: Option<SvgElement>) {
+        self.prev_element = el;
+    }
+
     /// Register an element which has not been evaluated yet, unless its id is
     /// already known (a re-evaluated element keeps its earlier registration until
     /// it is resolved again).
